@@ -131,79 +131,140 @@ def rule_combine(ctx):
 def rule_pair(ctx):
     r = RuleResult("C19-PAIR", "exponent accumulation is paired with the normalisation", 3)
     f = ctx.p.func(C.CONTRACT, "Contractor.__call__")
-    fl = ctx.flow(f)
-    acc = div = None
+    # the normalisation: X = X / factor (or X /= factor) inside the contraction loop
+    div = None
     for n in walk_local(f.node):
-        if isinstance(n, (ast.Assign, ast.AugAssign)):
+        if isinstance(n, ast.AugAssign) and isinstance(n.op, ast.Div) and \
+                isinstance(n.target, ast.Name) and C.enclosing_loops(f, n):
+            div = (n, n.value)
+        elif isinstance(n, ast.Assign) and isinstance(n.value, ast.BinOp) and \
+                isinstance(n.value.op, ast.Div) and isinstance(n.targets[0], ast.Name) and \
+                isinstance(n.value.left, ast.Name) and n.value.left.id == n.targets[0].id and \
+                C.enclosing_loops(f, n):
+            div = (n, n.value.right)
+    C.require(div is not None, "normalisation `p_array / factor` in Contractor.__call__ not found")
+    dstmt, factor = div
+    fname = C.unparse(factor)
+    # the accumulation: additive, in log space, of the same factor
+    acc = None
+    mult = None
+    for n in walk_local(f.node):
+        if isinstance(n, (ast.Assign, ast.AugAssign)) and n is not dstmt:
             tgt = n.targets[0] if isinstance(n, ast.Assign) else n.target
-            if isinstance(tgt, ast.Name) and tgt.id == "exponent":
-                txt = ast.unparse(n.value)
-                if "log10" in txt:
-                    acc = n
-            if isinstance(tgt, ast.Name):
-                v = n.value
-                if isinstance(n, ast.AugAssign) and isinstance(n.op, ast.Div):
-                    div = n
-                elif isinstance(v, ast.BinOp) and isinstance(v.op, ast.Div) and \
-                        isinstance(v.left, ast.Name) and v.left.id == tgt.id:
-                    div = n
-    C.require(acc is not None, "exponent accumulation in Contractor.__call__ not found")
+            if not isinstance(tgt, ast.Name):
+                continue
+            v = n.value
+            uses_factor = any(isinstance(x, ast.Name) and x.id == fname for x in ast.walk(v))
+            if not uses_factor or tgt.id == fname:
+                continue
+            has_log = any(isinstance(x, ast.Call) and "log10" in ast.unparse(x.func) + " ".join(
+                ast.unparse(a) for a in x.args[:1]) for x in ast.walk(v))
+            additive = (isinstance(n, ast.AugAssign) and isinstance(n.op, ast.Add)) or \
+                (isinstance(v, ast.BinOp) and isinstance(v.op, ast.Add)
+                 and any(isinstance(x, ast.Name) and x.id == tgt.id for x in (v.left, v.right)))
+            if has_log and additive:
+                acc = n
+            elif (isinstance(n, ast.AugAssign) and isinstance(n.op, ast.Mult)) or \
+                    (isinstance(v, ast.BinOp) and isinstance(v.op, ast.Mult)):
+                mult = n
     key = ctx.key(f, "C19-PAIR", "accumulate/normalise")
-    if div is None:
-        r.violation(key, C.loc(f, acc), "the exponent is accumulated but the intermediate is "
-                    "never divided by the factor")
+    if acc is None:
+        why = ("the stripped scale is accumulated as a running *product* of the factors "
+               "(overflows/underflows exactly where stripping is needed) instead of a sum "
+               "of log10(factor)") if mult is not None else \
+            "intermediates are divided by their magnitude but the exponent is not accumulated"
+        r.violation(key, C.loc(f, mult or dstmt), why)
+        acc = None
     else:
-        pa, pd = f.module.parents.get(acc), f.module.parents.get(div)
-        # same factor on both sides
-        acc_names = {x.id for x in ast.walk(acc.value) if isinstance(x, ast.Name)}
-        dv = div.value
-        div_by = dv.right if isinstance(dv, ast.BinOp) else dv
-        same_factor = isinstance(div_by, ast.Name) and div_by.id in acc_names
-        if pa is pd and same_factor:
-            r.ok(key, C.loc(f, acc), "accumulate log10(factor) and divide by the same factor in "
-                 "one block", block_guard=C.unparse(pa.test) if isinstance(pa, ast.If) else "")
+        pa, pd = f.module.parents.get(acc), f.module.parents.get(dstmt)
+        if pa is pd:
+            r.ok(key, C.loc(f, acc), "accumulate log10(factor) additively and divide by the "
+                 "same factor in one block",
+                 block_guard=C.unparse(pa.test) if isinstance(pa, ast.If) else "")
         else:
             r.violation(key, C.loc(f, acc), "exponent accumulation and normalisation are not in "
-                        "the same block / do not use the same factor",
-                        accumulate=C.unparse(acc), normalise=C.unparse(div))
-        # not on the single-term branch; after the pairwise step (inside the loop)
-        loops = C.enclosing_loops(f, acc)
-        key2 = ctx.key(f, "C19-PAIR", "per-step")
-        if not loops:
-            r.violation(key2, C.loc(f, acc), "normalisation is not applied after every pairwise step")
-        else:
-            single = None
-            for st in loops[0].body:
-                if isinstance(st, ast.If) and "None" in ast.unparse(st.test) and \
-                        any(isinstance(x, ast.Continue) for x in ast.walk(st)):
-                    single = st
-            inside_single = single is not None and any(x is acc for x in ast.walk(single))
-            if inside_single:
-                r.violation(key2, C.loc(f, acc), "normalisation applied on the single-term branch")
-            else:
-                r.ok(key2, C.loc(f, acc), "applied once per pairwise step, not for single-term "
-                     "preprocessing")
-    # return shapes: (array, exponent) iff exponent is not None
+                        "the same block", accumulate=C.unparse(acc), normalise=C.unparse(dstmt))
+    # per pairwise step, not on the single-term branch
+    anchor = acc or dstmt
+    loops = C.enclosing_loops(f, anchor)
+    key2 = ctx.key(f, "C19-PAIR", "per-step")
+    single = None
+    for st in loops[0].body if loops else ():
+        if isinstance(st, ast.If) and "None" in ast.unparse(st.test) and \
+                any(isinstance(x, ast.Continue) for x in ast.walk(st)):
+            single = st
+    inside_single = single is not None and any(x is anchor for x in ast.walk(single))
+    if not loops:
+        r.violation(key2, C.loc(f, anchor), "normalisation is not applied after every pairwise step")
+    elif inside_single:
+        r.violation(key2, C.loc(f, anchor), "normalisation applied on the single-term branch")
+    else:
+        r.ok(key2, C.loc(f, anchor), "applied once per pairwise step, not for single-term "
+             "preprocessing")
+    # return shapes: 2-tuple iff the stripping guard holds
+    guard = None
+    gpar = f.module.parents.get(dstmt)
+    if isinstance(gpar, ast.If):
+        guard = C.unparse(gpar.test)
     rets = [n for n in walk_local(f.node) if isinstance(n, ast.Return) and n.value is not None]
     key3 = ctx.key(f, "C19-PAIR", "return-shape")
     bad = []
     for rt in rets:
         is_tuple = isinstance(rt.value, ast.Tuple) and len(rt.value.elts) == 2
         guards = [(C.unparse(i.test), t) for i, t in C.enclosing_ifs(f, rt)]
-        under_exp = any("exponent is not None" in g and t for g, t in guards)
-        if is_tuple != under_exp:
-            # the trailing plain return is reached only when exponent is None
-            if not is_tuple and not under_exp:
-                prev = _prev_sibling(f, rt)
-                if isinstance(prev, ast.If) and "exponent is not None" in ast.unparse(prev.test) \
-                        and isinstance(prev.body[-1], ast.Return):
-                    continue
+        under = any(g == guard and t for g, t in guards) if guard else False
+        if is_tuple != under:
             bad.append(rt)
-    if bad:
-        r.violation(key3, C.loc(f, bad[0]), "return shape does not follow the stripping guard",
-                    ret=C.unparse(bad[0]))
+        elif not is_tuple and not under:
+            # a plain return outside the guard is right only if the stripping case
+            # has already returned its (array, exponent) pair just before it
+            prev = _prev_sibling(f, rt)
+            if not (isinstance(prev, ast.If) and guard and C.unparse(prev.test) == guard
+                    and isinstance(prev.body[-1], ast.Return)
+                    and isinstance(prev.body[-1].value, ast.Tuple)):
+                bad.append(rt)
+    if bad or guard is None:
+        r.violation(key3, C.loc(f, bad[0]) if bad else f.loc,
+                    "return shape does not follow the stripping guard",
+                    ret=C.unparse(bad[0]) if bad else "")
     else:
-        r.ok(key3, f.loc, f"{len(rets)} returns: (array, exponent) iff stripping")
+        r.ok(key3, f.loc, f"{len(rets)} returns: (array, exponent) iff `{guard}`")
+    return r
+
+
+def rule_adder(ctx):
+    r = RuleResult("C19-ADDER", "the exponent-aware adder rescales both terms to the larger exponent", 2)
+    f = ctx.p.func(C.CORE, ADDER)
+    rets = [n for n in walk_local(f.node) if isinstance(n, ast.Return)
+            and isinstance(n.value, ast.Tuple) and len(n.value.elts) == 2]
+    C.require(rets, "tuple return of add_maybe_exponent_stripped not found")
+    rt = rets[-1]
+    la = ctx.r.local_assignments(f)
+    e = rt.value.elts[1]
+    edef = la.get(e.id, [e]) if isinstance(e, ast.Name) else [e]
+    key = ctx.key(f, "C19-ADDER", "common-exponent")
+    is_max = any(isinstance(v, ast.Call) and dotted(v.func) == "max" and len(v.args) == 2
+                 for v in edef)
+    if is_max:
+        r.ok(key, C.loc(f, rt), "result exponent = max of both exponents")
+    else:
+        r.violation(key, C.loc(f, rt), "the sum keeps one operand's exponent instead of the "
+                    "larger of the two: 10**(ye - xe) overflows when a later term is many "
+                    "decades larger than the running total", exponent=C.unparse(e))
+    # every power of ten has a non-positive exponent of the form (own - common)
+    key = ctx.key(f, "C19-ADDER", "bounded-rescale")
+    pows = [n for n in walk_local(f.node) if isinstance(n, ast.BinOp) and isinstance(n.op, ast.Pow)
+            and isinstance(n.left, ast.Constant) and n.left.value == 10]
+    ename = e.id if isinstance(e, ast.Name) else None
+    good = bool(pows) and is_max and all(
+        isinstance(p.right, ast.BinOp) and isinstance(p.right.op, ast.Sub)
+        and isinstance(p.right.right, ast.Name) and p.right.right.id == ename for p in pows)
+    if good and len(pows) >= 2:
+        r.ok(key, C.loc(f, pows[0]), "both mantissas are scaled by 10**(own - max) <= 1")
+    else:
+        r.violation(key, C.loc(f, pows[0]) if pows else f.loc, "a mantissa is rescaled by a "
+                    "power of ten that is not bounded by 1 (exponent difference taken against "
+                    "something other than the common maximum), or one term is not rescaled")
     return r
 
 
@@ -322,4 +383,4 @@ def rule_option(ctx):
     return r
 
 
-RULES = [rule_combine, rule_pair, rule_rescale, rule_option]
+RULES = [rule_combine, rule_pair, rule_adder, rule_rescale, rule_option]
